@@ -195,7 +195,6 @@ type c15Kept struct {
 	want []byte
 }
 
-
 func c15CheckKept(r *core.Run, kept *[]c15Kept, after string) {
 	for i := range *kept {
 		k := &(*kept)[i]
